@@ -114,7 +114,7 @@ Proof.
       { intros y Hy. apply C01.mapM_Forall2 in Hm.
         destruct (Forall2_In_r _ _ _ y Hm Hy) as (x & Hx & Hxy).
         exact (IH x ltac:(sz) F y (C01.forallb_In _ _ _ Hn Hx) Hxy). }
-      destruct (matrix_fires scratch); [|inversion H; subst; reflexivity].
+      destruct (matrix_table scratch); [|inversion H; subst; reflexivity].
       cbv zeta in H. apply C03.bind_ok_inv in H. destruct H as ([rows others] & Hp & H).
       pose proof (place_all_others _ _ _ _ Hp) as Hsub.
       destruct rows as [|r0 rows0]; cbn [app] in H.
@@ -205,8 +205,9 @@ Proof.
       assert (HV1 : V1 d (EGroup BOr g) = sumr (map (V1 d) g)) by (apply (val_or o ids1 _ d K (Hok1 d) g Hgl)).
       assert (HRs : Rn neg (sumr (map (V2 d) scratch)) (V1 d (EGroup BOr g))).
       { rewrite HV1. apply Rn_sumr. exact HR. }
-      destruct (matrix_fires scratch) eqn:Ef.
+      destruct (matrix_table scratch) eqn:Et.
       2:{ inversion H; subst e'. unfold V2 at 1. rewrite (val_or o ids2 _ d K (Hok2 d) scratch G'). exact HRs. }
+      pose proof (matrix_table_fires _ Et) as Ef.
       cbv zeta in H. set (cols := matrix_cols ord (count_fields scratch)) in *.
       apply C03.bind_ok_inv in H. destruct H as ([rows others] & Hp & H).
       pose proof (scratch_d18 ord neg F g scratch Hh18 Hm Ef) as Hd18.
